@@ -1,6 +1,7 @@
 package main
 
 import (
+	"os/exec"
 	"encoding/json"
 	"flag"
 	"fmt"
@@ -47,6 +48,8 @@ type checkOpts struct {
 	verbose  bool
 	timeoutS int
 	keepVC   bool
+	outDir   string // vc / replay output below this directory (default /verif/out)
+	canary   bool   // run on a scratch copy with a seeded change: no evidence, no canaries of its own
 }
 
 func cmdCheck(args []string) int {
@@ -58,7 +61,10 @@ func cmdCheck(args []string) int {
 	fs.StringVar(&o.only, "func", "", "only this function (debug; no evidence written)")
 	fs.BoolVar(&o.verbose, "v", false, "verbose")
 	fs.IntVar(&o.timeoutS, "timeout", 0, "per-solver timeout in seconds")
+	fs.StringVar(&o.outDir, "out", filepath.Join(verifDir, "out"), "directory for generated VCs and replay files")
+	fs.BoolVar(&o.canary, "canary", false, "internal: run against a scratch copy carrying a seeded change (no evidence written)")
 	fs.Parse(args)
+	repoDir = strings.TrimSuffix(o.repo, "/")
 	if o.tier == "" {
 		o.tier = os.Getenv("VERIF_TIER")
 	}
@@ -117,7 +123,7 @@ func runCheck(o *checkOpts) int {
 	var reports []funcReport
 	var genFailures []string
 	assumed := map[string]bool{}
-	vcDir := filepath.Join(verifDir, "out", "vc", o.prop)
+	vcDir := filepath.Join(o.outDir, "vc", o.prop)
 	os.RemoveAll(vcDir)
 	os.MkdirAll(vcDir, 0o755)
 	if err != nil {
@@ -251,7 +257,7 @@ func runCheck(o *checkOpts) int {
 	}
 	violations := 0
 	exit := 0
-	replayDir := filepath.Join(verifDir, "out", "replay", o.prop)
+	replayDir := filepath.Join(o.outDir, "replay", o.prop)
 	os.MkdirAll(replayDir, 0o755)
 	for _, g := range genFailures {
 		violations++
@@ -306,8 +312,15 @@ func runCheck(o *checkOpts) int {
 		exit = 1
 		violations++
 	}
-	if o.only != "" {
+	if o.only != "" || o.canary {
 		return exit
+	}
+	// ---- must-fail canaries (thorough tier): the seeded changes this check is known to report are
+	// applied to scratch copies of the current tree; each must still be reported ----
+	canaries := map[string]string{}
+	canaryFail := false
+	if o.tier == "thorough" {
+		canaries, canaryFail = runCanaries(o)
 	}
 	// ---- evidence ----
 	sort.Slice(all, func(i, j int) bool { return all[i].TimeS > all[j].TimeS })
@@ -359,6 +372,7 @@ func runCheck(o *checkOpts) int {
 		"not_covered_clauses":      meta.NotCovered,
 		"bounded_standins":         meta.BoundedStandins,
 		"per_solver_timeout_s":     o.timeoutS,
+		"mustfail_canaries":        canaries,
 		"rule":                     "one obligation per contract clause, safety condition, loop-invariant step and frame condition on each symbolic path of each function under contract; every obligation is a closed formula valid for all inputs",
 	}
 	ev := map[string]interface{}{
@@ -373,7 +387,70 @@ func runCheck(o *checkOpts) int {
 	}
 	os.MkdirAll(filepath.Join(verifDir, "evidence"), 0o755)
 	writeJSON(filepath.Join(verifDir, "evidence", o.prop+".json"), ev)
+	if canaryFail && exit == 0 {
+		// the property held on the tree, but the checker failed its own must-fail test: say so
+		// (no VIOLATION line: this is a defect of the check, not of the repository)
+		return 2
+	}
 	return exit
+}
+
+// runCanaries applies every seeded change of /verif/seeded that this property's check is recorded to
+// report (meta.json caught_by) to a scratch copy of the current tree and re-runs the quick check on
+// it. A canary that applies and is not reported is a checker failure.
+func runCanaries(o *checkOpts) (map[string]string, bool) {
+	out := map[string]string{}
+	bad := false
+	dirs, _ := filepath.Glob(filepath.Join(verifDir, "seeded", "*", "meta.json"))
+	sort.Strings(dirs)
+	for _, mf := range dirs {
+		data, err := os.ReadFile(mf)
+		if err != nil {
+			continue
+		}
+		var meta struct {
+			ID       string   `json:"id"`
+			CaughtBy []string `json:"caught_by"`
+		}
+		if json.Unmarshal(data, &meta) != nil || !hasProp(meta.CaughtBy, o.prop) {
+			continue
+		}
+		patch := filepath.Join(filepath.Dir(mf), "patch.diff")
+		tmp, err := os.MkdirTemp("", "gvc-canary-")
+		if err != nil {
+			out[meta.ID] = "skipped: " + err.Error()
+			continue
+		}
+		func() {
+			defer os.RemoveAll(tmp)
+			src := filepath.Join(tmp, "repo")
+			if b, err := exec.Command("rsync", "-a", "--exclude", ".git", repoDir+"/", src+"/").CombinedOutput(); err != nil {
+				out[meta.ID] = "skipped: copy failed: " + truncate(string(b), 100)
+				return
+			}
+			if b, err := exec.Command("patch", "-p1", "-s", "-f", "-d", src, "-i", patch).CombinedOutput(); err != nil {
+				out[meta.ID] = "skipped: patch does not apply to the current tree: " + truncate(strings.TrimSpace(string(b)), 80)
+				return
+			}
+			cmd := exec.Command(os.Args[0], "check", "--property", o.prop, "--tier", "quick", "--repo", src, "--out", filepath.Join(tmp, "out"), "--canary")
+			b, _ := cmd.CombinedOutput()
+			first := ""
+			for _, l := range strings.Split(string(b), "\n") {
+				if strings.HasPrefix(l, "FAILED-OBLIGATION") {
+					first = truncate(strings.TrimPrefix(l, "FAILED-OBLIGATION "+o.prop+" "), 120)
+					break
+				}
+			}
+			if cmd.ProcessState != nil && cmd.ProcessState.ExitCode() == 1 && first != "" {
+				out[meta.ID] = "reported: " + first
+			} else {
+				out[meta.ID] = "NOT REPORTED"
+				bad = true
+				fmt.Printf("CHECKER-SELFTEST-FAILED property=%s canary=%s: a seeded change this check used to report is no longer reported\n", o.prop, meta.ID)
+			}
+		}()
+	}
+	return out, bad
 }
 
 func round2(f float64) float64 { return float64(int(f*100+0.5)) / 100 }
